@@ -750,7 +750,7 @@ def run(ctx):
     res.rule += ('; an operation-level history (no preemption inside an operation) is non-trivial under the same rule, its '
                  'deviations being the changes of thread between operations')
     big = ctx.tier == 'thorough' or ctx.escalated
-    total = ctx.budget(2600, 40000)
+    total = ctx.budget(2600, 36000)
     scenarios = list(CATALOGUE) + [gen_case(rng) for _ in range(ctx.budget(12, 120))]
     per = max(8, total // len(scenarios))
     shrunk = [0]
@@ -834,7 +834,7 @@ def run(ctx):
             if fresh(obs):
                 record(kind, dict(base, choices=obs['choices']), obs)
     # ---------- operation-level histories ----------
-    histories = cross_scope_matrix() + [gen_history(rng) for _ in range(ctx.budget(250, 4000))]
+    histories = cross_scope_matrix() + [gen_history(rng) for _ in range(ctx.budget(250, 3000))]
     for kind, base in histories:
         _, obs = run_case(base, policy_for(base))
         record(kind, base, obs)
